@@ -685,6 +685,8 @@ def ark_ff_models():
         if x.is_const(): return FE.const(x.field, pow(x.const_value(), ev, x.p))
         return x.pow(ev)
     return [
+        (r'^<ark_ff::BigInt<\d+> as core::convert::From<u(8|16|32|64)>>::from$', lambda I, fr, fn, a: Agg('ark_ff::BigInt', [[a[0]] + [0] * (int(re.search(r'BigInt<(\d+)>', fn).group(1)) - 1)]) if isinstance(a[0], int) else NotImplemented),
+        (r'^<u(8|16|32|64) as core::convert::Into<ark_ff::BigInt<\d+>>>::into$', lambda I, fr, fn, a: Agg('ark_ff::BigInt', [[a[0]] + [0] * (int(re.search(r'BigInt<(\d+)>', fn).group(1)) - 1)]) if isinstance(a[0], int) else NotImplemented),
         (r'^ark_ff::fp::montgomery_backend::<impl ark_ff::Fp<.*>>::from_sign_and_limbs$', m_from_sign_and_limbs),
         (r'^<ark_ff::BigInt<\d+> as core::convert::From<ark_ff::Fp<.*>>>::from$', m_bigint_from_fp),
         (r'^<ark_ff::Fp<.*> as core::convert::Into<ark_ff::BigInt<\d+>>>::into$', m_bigint_from_fp),
